@@ -15,13 +15,13 @@ type rx struct {
 	sub  []*rx
 }
 
-func rSym(syms ...int) *rx    { return &rx{op: 's', syms: syms} }
-func rEps() *rx               { return &rx{op: 'e'} }
-func rCat(s ...*rx) *rx       { return &rx{op: 'c', sub: s} }
-func rAlt(s ...*rx) *rx       { return &rx{op: 'a', sub: s} }
-func rStar(r *rx) *rx         { return &rx{op: '*', sub: []*rx{r}} }
-func rPlus(r *rx) *rx         { return rCat(r, rStar(r)) }
-func rOpt(r *rx) *rx          { return rAlt(r, rEps()) }
+func rSym(syms ...int) *rx { return &rx{op: 's', syms: syms} }
+func rEps() *rx            { return &rx{op: 'e'} }
+func rCat(s ...*rx) *rx    { return &rx{op: 'c', sub: s} }
+func rAlt(s ...*rx) *rx    { return &rx{op: 'a', sub: s} }
+func rStar(r *rx) *rx      { return &rx{op: '*', sub: []*rx{r}} }
+func rPlus(r *rx) *rx      { return rCat(r, rStar(r)) }
+func rOpt(r *rx) *rx       { return rAlt(r, rEps()) }
 
 type nfa struct {
 	n      int
@@ -227,10 +227,10 @@ func (t *tsys) verdictsAtEnd(nodes []int32) map[int32]bool {
 }
 
 type searchResult struct {
-	Found   bool
-	Witness []int // symbol sequence
+	Found    bool
+	Witness  []int // symbol sequence
 	Explored int
-	Detail  string
+	Detail   string
 }
 
 // findWord searches for a word w in L(spec) such that bad(verdicts of the
